@@ -805,3 +805,121 @@ def tr_utility_callback(ctx, err, res):
         ctx.prove(m == 'SUCCESS ADD host:1', 'C10+C17:O10.8.success-reported-for-success', info=repr(m))
     else:
         ctx.prove(m == 'FAIL ADD host:1', 'C10+C17:O10.8.every-other-completion-reported-as-fail', info=repr(m))
+
+
+# --------------------------------------------------------------------------------------------------------------------------------
+# dialling side with an encryptor configured: the key exchange of _onOutgoingConnected / _onOutgoingMessageReceived.
+# Only the transport's part is under contract: which callback consumes the first message of *every* (re)connect and when the peer is
+# reported connected.  The encryption itself (TcpConnection.encryptor, Fernet) stays outside (no-crypto).
+
+@unit(name='transport.outgoingEncrypted', relpath=TRMOD, qual=['%s._onOutgoingConnected' % CLS, '%s._onOutgoingMessageReceived' % CLS, '%s._sendSelfAddress' % CLS],
+      props=['C14'], cases=[dict(reconnect=False), dict(reconnect=True)],
+      doc='O14.10: with an encryptor configured, every outgoing connect - the first and each reconnect of the same connection object - '
+          'sends a fresh key, routes the next message of that connection to the key-exchange handler (so the peer\'s key is never '
+          'delivered as a message of the peer) and reports nobody connected yet; the key-exchange handler stores the key, announces '
+          'this node\'s address, routes later messages to _onMessageReceived with exactly the connection\'s node as source and reports '
+          'that node connected exactly once',
+      assumptions=['the encryptor is an opaque truthy object; TcpConnection\'s use of it (Fernet, cryptography) is not verified (no-crypto)',
+                   'a connection that is (re)connecting has sendRandKey and recvRandKey None (TcpConnection.__init__ and disconnect(), tcp_connection.py)'],
+      canaries=[('handshake-callback-not-installed', lambda mod: mutate_function(mod, '%s._onOutgoingConnected' % CLS, _mut_no_handshake_cb),
+                 ['O14.10.next-message-goes-to-the-key-exchange'])])
+def tr_outgoing_encrypted(ctx, reconnect):
+    tr, conns, members = mk_transport(ctx)
+    so = ctx.cell(tr).fields['_syncObj']
+    ctx.setcell(so, ctx.cell(so).with_field('encryptor', ctx.alloc(PObj('Encryptor', {}))))
+    c0 = conns[0]
+    cell = ctx.cell(c0).with_field('sendRandKey', None).with_field('recvRandKey', None)
+    # state left by addNode (first connect) or by the previous completed handshake (reconnect): messages go to _onMessageReceived(node)
+    stale = Partial('previous:_onMessageReceived', (NodeV(0),)) if reconnect else Partial('addNode:_onMessageReceived', (NodeV(0),))
+    ctx.setcell(c0, cell.with_field('msgcb', stale))
+    ctx.setcell(ctx.cell(tr).fields['_connections'], KVDict([(True, NodeV(0), c0)]))
+    outcome, r, I = run_tr(ctx, tr, '_onOutgoingConnected', [c0])
+    ctx.prove(outcome == 'ok', 'C14:O14.10.connected.no-exception', info=outcome)
+    if outcome != 'ok':
+        return
+    sends = [o for o in ctx.glist('conn_ops') if o[0] == 'send']
+    f0 = ctx.cell(c0).fields
+    ctx.prove(len(sends) == 1 and sends[0][1] == 'conn0' and f0.get('recvRandKey') is not None and sends[0][2] == f0.get('recvRandKey'),
+              'C14:O14.10.fresh-key-sent-first', info=repr(sends))
+    mcb = f0.get('msgcb')
+    ctx.prove(isinstance(mcb, Partial) and isinstance(mcb.f, BoundMethod) and mcb.f.name == '_onOutgoingMessageReceived' and len(mcb.args) == 1 and
+              isinstance(mcb.args[0], Ref) and mcb.args[0].addr == c0.addr, 'C14:O14.10.next-message-goes-to-the-key-exchange', info=repr(getattr(mcb, 'f', mcb)))
+    ctx.prove(len(ctx.glist('cb')) == 0, 'C14:O14.10.nobody-reported-connected-before-the-key-exchange', info=repr(ctx.glist('cb')))
+    key = Opaque('peerKey', FreshInt('peerKey'))
+    outcome, r, I2 = run_tr(ctx, tr, '_onOutgoingMessageReceived', [c0, key])
+    ctx.prove(outcome == 'ok', 'C14:O14.10.exchange.no-exception', info=outcome)
+    if outcome != 'ok':
+        return
+    f0 = ctx.cell(c0).fields
+    ctx.prove(f0.get('sendRandKey') is key, 'C14:O14.10.peer-key-stored')
+    sends = [o for o in ctx.glist('conn_ops') if o[0] == 'send']
+    ctx.prove(len(sends) == 2 and sends[1][1] == 'conn0' and isinstance(sends[1][2], NodeId) and Eq(sends[1][2].idx, U) is True,
+              'C14:O14.10.own-address-announced-after-the-key', info=repr(sends))
+    mcb = f0.get('msgcb')
+    ctx.prove(isinstance(mcb, Partial) and isinstance(mcb.f, BoundMethod) and mcb.f.name == '_onMessageReceived' and len(mcb.args) == 1 and
+              isinstance(mcb.args[0], NodeV) and Eq(mcb.args[0].idx, 0) is True, 'C14:O14.10.later-messages-delivered-with-the-connections-node-as-source', info=repr(mcb))
+    cbs = ctx.glist('cb')
+    ctx.prove(len(cbs) == 1 and cbs[0][0] == 'cb:onNodeConnected' and Eq(cbs[0][1][0].idx, 0) is True, 'C14:O14.10.peer-reported-connected-exactly-once-after-the-exchange',
+              info=repr([c[0] for c in cbs]))
+    ctx.prove(not any(c[0] == 'cb:onMessageReceived' for c in cbs), 'C14:O14.10.key-never-delivered-as-a-message-of-the-peer')
+
+
+def _mut_no_handshake_cb(fn):
+    cnt = 0
+    for n in ast.walk(fn):
+        body = getattr(n, 'body', None)
+        if isinstance(body, list):
+            for s in list(body):
+                if isinstance(s, ast.Expr) and isinstance(s.value, ast.Call) and isinstance(s.value.func, ast.Attribute) and s.value.func.attr == 'setOnMessageReceivedCallback':
+                    body.remove(s)
+                    if not body:
+                        body.append(ast.Pass())
+                    cnt += 1
+    return cnt
+
+
+@unit(name='transport.incomingEncrypted', relpath=TRMOD, qual=['%s._onIncomingMessageReceived' % CLS], props=['C14', 'C10'],
+      doc='O14.11: with an encryptor configured, the first message of an incoming connection is consumed as the peer\'s key: it is stored, a '
+          'fresh key is sent back, and the connection stays unknown - bound to no node, reported to nobody, its messages still routed to '
+          'the handshake; only the second message names the peer, and a member address then binds the connection to exactly that member',
+      assumptions=['the encryptor is an opaque truthy object; TcpConnection\'s use of it is not verified (no-crypto)',
+                   'a new incoming connection has sendRandKey None (TcpConnection.__init__)'])
+def tr_incoming_encrypted(ctx):
+    tr, conns, members = mk_transport(ctx)
+    so = ctx.cell(tr).fields['_syncObj']
+    ctx.setcell(so, ctx.cell(so).with_field('encryptor', ctx.alloc(PObj('Encryptor', {}))))
+    hs = Partial('server:_onIncomingMessageReceived', ())
+    newc = ctx.alloc(PObj('TcpConnection', {'state': CONNECTED, 'name': 'incoming', 'sendRandKey': None, 'recvRandKey': None, 'msgcb': hs}))
+    ctx.setcell(ctx.cell(tr).fields['_unknownConnections'], GSet([(True, newc, True)]))
+    key = Opaque('peerKey', FreshInt('peerKey'))      # 32 random bytes: truthy
+    outcome, r, I = run_tr(ctx, tr, '_onIncomingMessageReceived', [newc, key])
+    ctx.prove(outcome == 'ok', 'C14:O14.11.key.no-exception', info=outcome)
+    if outcome != 'ok':
+        return
+    f0 = ctx.cell(newc).fields
+    sends = [o for o in ctx.glist('conn_ops') if o[0] == 'send']
+    ctx.prove(f0.get('sendRandKey') is key, 'C14:O14.11.peer-key-stored')
+    ctx.prove(len(sends) == 1 and sends[0][1] == 'incoming' and f0.get('recvRandKey') is not None and sends[0][2] == f0.get('recvRandKey'), 'C14:O14.11.fresh-key-sent-back', info=repr(sends))
+    ctx.prove(len(ctx.glist('cb')) == 0, 'C14+C10:O14.11.key-reported-to-nobody', info=repr(ctx.glist('cb')))
+    ctx.prove(f0.get('msgcb') is hs, 'C14+C10:O14.11.key-is-not-a-node-message-and-later-messages-stay-with-the-handshake')
+    bound = [(p, k) for p, k, v in F_(ctx, tr, '_connections').entries if isinstance(v, Ref) and v.addr == newc.addr and p is not False]
+    ctx.prove(len(bound) == 0, 'C14+C10:O14.11.connection-bound-to-no-node-after-the-key')
+    still_unknown = Or(*[And(p, I.equals(k, newc)) for p, k, v in F_(ctx, tr, '_unknownConnections').entries])
+    ctx.prove(still_unknown, 'C14:O14.11.connection-still-unknown-after-the-key')
+    ctx.prove(not any(o[0] == 'disconnect' for o in ctx.glist('conn_ops')), 'C14:O14.11.not-disconnected-by-the-key')
+    # second message: the claimed address
+    idx = FreshInt('claimedNode')
+    ctx.assume(And(idx >= 0, idx <= U + 2))
+    outcome, r, I = run_tr(ctx, tr, '_onIncomingMessageReceived', [newc, NodeId(idx)])
+    ctx.prove(outcome == 'ok', 'C14:O14.11.name.no-exception', info=outcome)
+    if outcome != 'ok':
+        return
+    bound = [(p, k) for p, k, v in F_(ctx, tr, '_connections').entries if isinstance(v, Ref) and v.addr == newc.addr and p is not False]
+    is_member = Or(*[And(members[i], Eq(idx, i)) for i in range(U)])
+    if ctx.decide(is_member, 'is-member'):
+        ctx.prove(len(bound) == 1 and isinstance(bound[0][1], NodeV) and Eq(bound[0][1].idx, idx), 'C14+C10:O14.11.bound-to-the-claimed-member')
+        cbs = [c for c in ctx.glist('cb') if c[0] == 'cb:onNodeConnected']
+        ctx.prove(len(cbs) == 1 and len(ctx.glist('cb')) == 1 and Eq(cbs[0][1][0].idx, idx), 'C14:O14.11.member-reported-connected-once')
+    else:
+        ctx.prove(len(bound) == 0 and len(ctx.glist('cb')) == 0, 'C14+C10:O14.11.unknown-peer-bound-to-no-node')
+        ctx.prove(any(o == ('disconnect', 'incoming') for o in ctx.glist('conn_ops')), 'C14+C10:O14.11.unknown-peer-disconnected')
